@@ -170,6 +170,17 @@ def textLe : Text → Text → Bool
 
 def nameLe (a b : UnitDef) : Bool := textLe a.name b.name
 
+/-- stable insertion sort (structural recursion, so that the kernel can evaluate it):
+`sort_by` of the Rust standard library is a stable sort, and every stable sort by a total
+preorder yields the same list -/
+def insertBy {α} (le : α → α → Bool) (a : α) : List α → List α
+  | [] => [a]
+  | b :: l => if le a b then a :: b :: l else b :: insertBy le a l
+
+def isort {α} (le : α → α → Bool) : List α → List α
+  | [] => []
+  | a :: l => insertBy le a (isort le l)
+
 /-- scan the unit attributes in order (`unit_defs_*_from_attrs`) -/
 def parseUnits (withRef : Bool) : List (Nat × RawAttr) → Except MacroErr (List UnitDef)
   | [] => .ok []
@@ -188,8 +199,15 @@ def enumFrom {α} : Nat → List α → List (Nat × α)
   | _, [] => []
   | n, a :: as => (n, a) :: enumFrom (n + 1) as
 
-/-- `analyze` (with `parse_item`, `check_struct`, `get_unit_attrs`) -/
-def analyze (it : RawItem) : Except MacroErr QtyDef :=
+/-- what a definition declares, before ordering: the reference unit (given the scale literal
+`1.0`) first, then the `#[unit]` attributes in source order -/
+structure Declared where
+  refIdent : Option Text
+  units : List UnitDef
+  deriving DecidableEq, Repr, Inhabited
+
+/-- validation and parsing part of `analyze` (with `parse_item`, `check_struct`, `get_unit_attrs`) -/
+def declared (it : RawItem) : Except MacroErr Declared :=
   if !it.isStruct then .error ⟨.item, "expected `struct`"⟩
   else if it.hasGenerics then .error ⟨.item, "Given struct must not have generic parameters."⟩
   else if it.hasFields then .error ⟨.item, "Given struct must not have fields."⟩
@@ -213,15 +231,23 @@ def analyze (it : RawItem) : Except MacroErr QtyDef :=
               let rd := { rd with scale := some litOne }
               match parseUnits true units with
               | .error e => .error e
-              | .ok us =>
-                .ok { name := it.name, derived := none, refIdent := some rd.ident
-                      units := (rd :: us).mergeSort keyLe }
+              | .ok us => .ok { refIdent := some rd.ident, units := rd :: us }
         | [] =>
           match parseUnits false units with
           | .error e => .error e
-          | .ok us =>
-            .ok { name := it.name, derived := none, refIdent := none
-                  units := us.mergeSort nameLe }
+          | .ok us => .ok { refIdent := none, units := us }
+
+/-- the order `analyze` sorts by: the `f64` value of the scale literal if there is a reference
+unit, the unit name otherwise -/
+def orderOf (dc : Declared) : UnitDef → UnitDef → Bool :=
+  if dc.refIdent.isSome then keyLe else nameLe
+
+/-- `analyze`: stable sort of the declared units -/
+def analyze (it : RawItem) : Except MacroErr QtyDef :=
+  match declared it with
+  | .error e => .error e
+  | .ok dc => .ok { name := it.name, derived := none, refIdent := dc.refIdent
+                    units := isort (orderOf dc) dc.units }
 
 /-- the whole macro front end, in the order of `quantity()` in `qty-macros/src/lib.rs`:
 `parse_item`, `analyze`, then `parse_args`. -/
